@@ -70,7 +70,13 @@ pub fn gen_c12(seed: u64, thorough: bool) -> Scenario {
   config.index_addresses = crng.chance(1, 2);
   config.index_runes = crng.chance(2, 3);
   config.commit_interval = 1 + crng.below(12) as u32;
-  let f = Features::swarm(&everything_features(), &mut wrng);
+  // a fifth of the chains are plain value transfers with the historic
+  // oddities (duplicate coinbase txids, underpaying coinbases)
+  let f = if wrng.chance(1, 5) {
+    Features::swarm(&sats_features(), &mut wrng)
+  } else {
+    Features::swarm(&everything_features(), &mut wrng)
+  };
   let n = 4 + wrng.usize(if thorough { 48 } else { 28 });
   let blocks = gen_chain(&mut wrng, &f, n);
   let fetch_path = !(config.index_sats || config.index_addresses);
